@@ -60,7 +60,10 @@ def nav(propid, nt_rule):
         exhaustive_note=lambda tier, tot: [dict(scope='every protocol-legal call history (any length; visited-set BFS) on every object- and array-rooted tree with '
                                                  '<= %d nodes over {object, array, int, bool}, with two field-naming schemes (spaced single letters; prefix chain a, ab, abc)' % (5 if tier == 'quick' else 7), exhaustive=True,
                                                  trees=tot['counters'].get('enum_trees', 0), joint_states=tot['counters'].get('enum_joint_states', 0),
-                                                 transitions=tot['counters'].get('enum_transitions', 0))],
+                                                 transitions=tot['counters'].get('enum_transitions', 0)),
+                                           dict(scope='field-name lengths ' + ('0..300, 32700..32800, 65500..65600, 70000' if tier == 'quick' else '0..2000, 32000..33600, 65000..66200, 69990..70000') +
+                                                ' x 3 document variants x 4 lookup probes (miss before / hit / miss after / between) x {from the start, after stopping on the previous field}',
+                                                exhaustive=True, cases=tot['counters'].get('enum_name_sweep_cases', 0))],
     )
 
 
@@ -224,6 +227,8 @@ PROPS['C08'] = dict(
 
 PROPS['C12'] = dict(
     harness='reuse',
+    exhaustive_note=lambda tier, tot: [dict(scope='nested structure starting at offset T-d, T in {256, 32768, 65535, 65536, 65537}, d in 0..%d, object- and array-rooted, entering-everything traversal abandoned after k = 0..29 steps, restart by reset and by verify' % (5 if tier == 'quick' else 11),
+                                             exhaustive=True, cases=tot['counters'].get('enum_abandon_sweep_cases', 0))],
     rule=('cases: pairs (previous use, next use). Previous: arbitrary (valid / mutated / raw) document, arbitrary and also off-protocol op script of up to '
           '24 calls abandoned anywhere (mid-container, after an error, after a rejected init), arbitrary pre-fill of the struct and the state array; then '
           'init on a second generated document, or reset, or verify. Next: arbitrary op script of up to 64 calls over the same op alphabet as C01. The '
@@ -233,22 +238,25 @@ PROPS['C12'] = dict(
           'iff the previous use ended inside a container, in an error, with a rejected init or over a garbage struct, the restart was accepted and >= 4 '
           'calls were compared (writer: the previous use ended in an error); distinct = hash(both documents, op kinds).'),
     tiers=dict(
-        quick=[rc(80000, shards=7, max_size=300, corpus=CORPUS), fuzz(250000, shards=9, corpus=CORPUS)],
-        thorough=[rc(600000, shards=4, max_size=600, corpus=CORPUS), fuzz(2500000, shards=12, max_len=2048, corpus=CORPUS)],
+        quick=[enum(shards=2, variant='san'), rc(80000, shards=7, max_size=300, corpus=CORPUS), fuzz(250000, shards=9, corpus=CORPUS)],
+        thorough=[enum(shards=2, variant='san'), rc(600000, shards=4, max_size=600, corpus=CORPUS), fuzz(2500000, shards=12, max_len=2048, corpus=CORPUS)],
     ),
 )
 
 PROPS['C16'] = dict(
     harness='apiseq', env={'VH_PROP': 'C16'}, replay_timeout=10,
+    exhaustive_note=lambda tier, tot: [dict(scope='field-name lengths ' + ('0..300, 32700..32800, 65500..65600, 69999' if tier == 'quick' else '0..2000, 32000..33600, 65000..66200, 69990..69999') +
+                                             ' x 2 variants: cursor stopped on an un-entered array, then 4 lookups overshooting onto the long name, a hit, 3 misses after it, a hit, leave, verify - each call measured',
+                                             exhaustive=True, cases=tot['counters'].get('enum_name_sweep_cases', 0))],
     rule=(APISEQ_RULE + 'The harness installs a counting callback in the public cb slot before every call: per call, token callbacks <= bytes the cursor '
           'advanced + 1 (+1 more for a failed lookup, which re-reads the one name it overshot, and for get_raw/to_writer, which scan twice), token callbacks '
           '<= input length + 1 for every call incl. verify, and the cursor never moves backwards except by restarting calls (init/reset/verify/print/'
           'to_string). A watchdog (libFuzzer -timeout=10, rapidcheck job cap + 10 s replay) reports a hang only after three confirming replays of the saved '
           'case. Non-trivial iff some call advanced over >= 2 tokens without returning to the caller; distinct = hash(document, op kinds).'),
     tiers=dict(
-        quick=[rc(100000, shards=6, max_size=250, corpus=CORPUS, hang_is_violation=True, timeout=400),
+        quick=[enum(shards=4, variant='san'), rc(100000, shards=6, max_size=250, corpus=CORPUS, hang_is_violation=True, timeout=400),
                fuzz(350000, shards=10, corpus=CORPUS, unit_timeout=10, timeouts_count=True)],
-        thorough=[rc(600000, shards=4, max_size=500, corpus=CORPUS, hang_is_violation=True, timeout=3000),
+        thorough=[enum(shards=8, variant='san'), rc(600000, shards=4, max_size=500, corpus=CORPUS, hang_is_violation=True, timeout=3000),
                   fuzz(5000000, shards=12, max_len=4096, corpus=CORPUS, unit_timeout=10, timeouts_count=True)],
     ),
 )
